@@ -127,7 +127,7 @@ pub use buffer::Buffer;
 pub use node::{Input, Node};
 use petgraph::data::{DataMap, DataMapMut};
 use petgraph::visit::{
-    Data, DfsPostOrder, GraphBase, IntoNeighborsDirected, NodeCount, NodeIndexable, Reversed,
+    Data, DfsPostOrder, GraphBase, IntoNeighborsDirected, IntoNodeIdentifiers, Reversed,
     Visitable,
 };
 use petgraph::{Incoming, Outgoing};
@@ -348,10 +348,10 @@ where
 /// A node is considered to be a source node if it has no incoming edges.
 pub fn sources<'a, G>(g: &'a G) -> impl 'a + Iterator<Item = G::NodeId>
 where
-    G: IntoNeighborsDirected + NodeCount + NodeIndexable,
+    G: IntoNeighborsDirected + IntoNodeIdentifiers,
+    G::NodeIdentifiers: 'a,
 {
-    (0..g.node_count())
-        .map(move |ix| g.from_index(ix))
+    g.node_identifiers()
         .filter_map(move |id| match g.neighbors_directed(id, Incoming).next() {
             None => Some(id),
             _ => None,
@@ -363,10 +363,10 @@ where
 /// A node is considered to be a **sink** node if it has no outgoing edges.
 pub fn sinks<'a, G>(g: &'a G) -> impl 'a + Iterator<Item = G::NodeId>
 where
-    G: IntoNeighborsDirected + NodeCount + NodeIndexable,
+    G: IntoNeighborsDirected + IntoNodeIdentifiers,
+    G::NodeIdentifiers: 'a,
 {
-    (0..g.node_count())
-        .map(move |ix| g.from_index(ix))
+    g.node_identifiers()
         .filter_map(move |id| match g.neighbors_directed(id, Outgoing).next() {
             None => Some(id),
             _ => None,
